@@ -27,6 +27,9 @@ Lemma lbind_eq {A B} (x : lres A) (f : A -> lres B) :
               end.
 Proof. unfold lbind. destruct (snd x); reflexivity. Qed.
 
+Lemma lbind_ext {A B} (x : lres A) (f g : A -> lres B) : (forall a, f a = g a) -> lbind x f = lbind x g.
+Proof. intro H. unfold lbind. destruct (snd x); try reflexivity. rewrite H. reflexivity. Qed.
+
 Lemma lbind_ok_inv {A B} (x : lres A) (f : A -> lres B) b :
   snd (lbind x f) = O2ok b -> exists a, snd x = O2ok a /\ snd (f a) = O2ok b.
 Proof. rewrite lbind_eq. destruct (snd x) as [a|e|]; cbn [snd]; intro H; try discriminate. exists a. split; [reflexivity | exact H]. Qed.
@@ -214,9 +217,6 @@ Proof.
   - cbn [fst]. repeat constructor. cbn [names_alloc_ok]. lia.
 Qed.
 
-Definition stream_alloc_ok (bound : N) (a : alloc) : Prop :=
-  match a with AName m => m < bound | ATable k => k < bound | _ => False end.
-
 Lemma deser_names_alloc pf v : Forall (stream_alloc_ok (lenN v)) (fst (deser_sample_names_p pf v)).
 Proof.
   unfold deser_sample_names_p. destruct (cv_decode_p pf v) as [[n r]| |] eqn:E; [| constructor | constructor].
@@ -249,4 +249,402 @@ Proof.
   unfold deser_sample_names_p, deser_sample_names. rewrite cv_decode_p_dev.
   destruct (cv_decode v) as [[n r]| |]; cbn [obnd fst snd o2_outcome]; try reflexivity.
   rewrite dec_names_strings. destruct (dec_strings (clamp n r) r) as [[ns r']| |]; reflexivity.
+Qed.
+
+(* ------------------------------------------------------------------ the stages before the sample table *)
+Ltac pconsts := unfold R_PARAMS_OFF_K, R_PARAMS_OFF_MML, R_PARAMS_OFF_PACK, R_PARAMS_OFF_SEGSIZE, R_PARAMS_MIN_LEN,
+  R_PARAMS_SEGSIZE_FROM_LEN, R_PARAMS_DEFAULT_SEGSIZE, R_PARAMS_NUM_PARTS, R_PARAMS_PART_ID, R_PARAMS_FIELD_BYTES in *.
+
+Lemma u32_le_at_some data off : off + 4 <= lenN data -> u32_le_at data off = Some (le32_at data off).
+Proof. intro H. unfold u32_le_at, le32_at. pconsts. destruct (off + 4 <=? lenN data) eqn:E; [reflexivity | lia]. Qed.
+
+Lemma get_part_by_id_not_none mo rd sid pid : snd (get_part_by_id mo rd sid pid) <> Ok None.
+Proof.
+  unfold get_part_by_id. destruct (nthS (r_streams rd) sid) as [s|]; [|cbn; discriminate].
+  destruct (nthS (rs_parts s) pid) as [p|]; [|cbn; discriminate].
+  destruct (read_part_data mo (r_file rd) p) as [al res]. cbn [snd]. destruct res; cbn [obnd]; discriminate.
+Qed.
+
+Definition file_log (bs : list N) (l : list alloc) : Prop :=
+  exists fl, l = map AFile fl /\ Forall (fun a => a <= lenN bs) fl.
+
+Lemma file_log_nil bs : file_log bs [].
+Proof. exists []. split; [reflexivity | constructor]. Qed.
+Lemma file_log_map bs fl : Forall (fun a => a <= lenN bs) fl -> file_log bs (map AFile fl).
+Proof. intro H. exists fl. split; [reflexivity | exact H]. Qed.
+Lemma file_log_app bs a b : file_log bs a -> file_log bs b -> file_log bs (a ++ b).
+Proof.
+  intros (fa & Ea & Fa) (fb & Eb & Fb). exists (fa ++ fb). subst. split; [symmetry; apply map_app | apply Forall_app; split; assumption].
+Qed.
+
+(* what load_params returns, declaratively *)
+Lemma load_params_ok_iff mo rd prm :
+  snd (load_params mo rd) = O2ok prm <->
+  exists sid data meta, get_stream_id rd R_NAME_PARAMS = Some sid /\ get_num_parts rd sid = 1 /\
+    snd (get_part_by_id mo rd sid 0) = Ok (Some (data, meta)) /\ 12 <= lenN data /\ prm = params_fields data.
+Proof.
+  unfold load_params. destruct (get_stream_id rd R_NAME_PARAMS) as [sid|].
+  2:{ cbn [snd]. split; [discriminate | intros (s & d & m & H & _); discriminate]. }
+  pconsts. destruct (get_num_parts rd sid =? 1) eqn:E1; cbn [negb].
+  2:{ cbn [snd]. split; [discriminate | intros (s & d & m & H & H2 & _)]. inversion H; subst. lia. }
+  cbv zeta. cbn [snd].
+  destruct (snd (get_part_by_id mo rd sid 0)) as [[[data meta]|]| |] eqn:E2.
+  - destruct (lenN data <? 12) eqn:E3.
+    { split; [discriminate | intros (s & d & m & H & _ & H3 & H4 & _)]. inversion H; subst. rewrite E2 in H3. inversion H3; subst. lia. }
+    rewrite !u32_le_at_some by lia. unfold params_fields.
+    destruct (16 <=? lenN data) eqn:E4.
+    + rewrite u32_le_at_some by lia. split.
+      * intro H. inversion H; subst. exists sid, data, meta. rewrite E4. repeat split; try reflexivity; try exact E2; lia.
+      * intros (s & d & m & H & _ & H3 & _ & H5). inversion H; subst. rewrite E2 in H3. inversion H3; subst. rewrite E4. reflexivity.
+    + split.
+      * intro H. inversion H; subst. exists sid, data, meta. rewrite E4. repeat split; try reflexivity; try exact E2; lia.
+      * intros (s & d & m & H & _ & H3 & _ & H5). inversion H; subst. rewrite E2 in H3. inversion H3; subst. rewrite E4. reflexivity.
+  - split; [discriminate | intros (s & d & m & H & _ & H3 & _)]. inversion H; subst. rewrite E2 in H3. discriminate.
+  - split; [discriminate | intros (s & d & m & H & _ & H3 & _)]. inversion H; subst. rewrite E2 in H3. discriminate.
+  - split; [discriminate | intros (s & d & m & H & _ & H3 & _)]. inversion H; subst. rewrite E2 in H3. discriminate.
+Qed.
+
+Lemma load_params_safe mo bs rd : rd_ok bs rd ->
+  file_log bs (fst (load_params mo rd)) /\ snd (load_params mo rd) <> O2panic.
+Proof.
+  intro H. unfold load_params. destruct (get_stream_id rd R_NAME_PARAMS) as [sid|]; [|split; [apply file_log_nil | cbn; discriminate]].
+  destruct (negb (get_num_parts rd sid =? R_PARAMS_NUM_PARTS)); [split; [apply file_log_nil | cbn; discriminate]|].
+  cbv zeta. cbn [fst snd].
+  destruct (rstep_safe mo bs rd (RById sid R_PARAMS_PART_ID) H) as (_ & S2 & S3). cbn [rstep snd] in S2, S3.
+  pose proof (get_part_by_id_not_none mo rd sid R_PARAMS_PART_ID) as NN.
+  split; [apply file_log_map; exact S2|].
+  destruct (snd (get_part_by_id mo rd sid R_PARAMS_PART_ID)) as [[[data meta]|]| |]; try contradiction; try discriminate.
+  pconsts. destruct (lenN data <? 12) eqn:E3; [discriminate|].
+  rewrite !u32_le_at_some by lia. destruct (16 <=? lenN data) eqn:E4; [|discriminate].
+  rewrite u32_le_at_some by lia. discriminate.
+Qed.
+
+Lemma prepare_ok_iff rd sid :
+  snd (prepare rd) = O2ok sid <->
+  get_stream_id rd R_NAME_COLL_0 = Some sid /\ get_stream_id rd R_NAME_COLL_1 <> None /\ get_stream_id rd R_NAME_COLL_2 <> None.
+Proof.
+  unfold prepare. change R_PREP_CHECK_ORDER with [0; 1; 2]. cbn [prep_checks coll_name].
+  destruct (get_stream_id rd R_NAME_COLL_0) as [s0|]; [|cbn; split; [discriminate | intros [H _]; discriminate]].
+  destruct (get_stream_id rd R_NAME_COLL_1) as [s1|]; [|cbn; split; [discriminate | intros (_ & H & _); contradiction]].
+  destruct (get_stream_id rd R_NAME_COLL_2) as [s2|]; [|cbn; split; [discriminate | intros (_ & _ & H); contradiction]].
+  cbn. split.
+  - intro H. inversion H; subst. repeat split; discriminate.
+  - intros [H _]. inversion H; subst. reflexivity.
+Qed.
+
+Lemma prepare_props rd : fst (prepare rd) = [] /\ snd (prepare rd) <> O2panic.
+Proof.
+  unfold prepare. destruct (prep_checks rd R_PREP_CHECK_ORDER); [split; [reflexivity | cbn; discriminate]|].
+  destruct (get_stream_id rd R_NAME_COLL_0); split; try reflexivity; cbn; discriminate.
+Qed.
+
+Lemma load_samples_ok_iff mo zd rd sid rv :
+  snd (load_samples_stream mo zd rd sid) = O2ok rv <->
+  exists frame raw, snd (snd (get_part mo rd sid)) = Ok (Some (frame, raw)) /\ zd frame = Some (snd rv) /\
+    lenN (snd rv) = raw /\ fst rv = fst (get_part mo rd sid).
+Proof.
+  unfold load_samples_stream. cbv zeta.
+  destruct (snd (snd (get_part mo rd sid))) as [[[frame raw]|]| |] eqn:E.
+  - destruct (zd frame) as [v|] eqn:Z.
+    + cbn [snd]. destruct (lenN v =? raw) eqn:E2.
+      * split.
+        -- intro H. inversion H; subst. cbn [fst snd]. exists frame, raw. repeat split; try assumption; lia.
+        -- intros (f & r & H1 & H2 & H3 & H4). inversion H1; subst. rewrite Z in H2. inversion H2; subst.
+           destruct rv as [a b]. cbn [fst snd] in *. subst. reflexivity.
+      * split; [discriminate|]. intros (f & r & H1 & H2 & H3 & H4). inversion H1; subst. rewrite Z in H2. inversion H2; subst. lia.
+    + cbn [snd]. split; [discriminate|]. intros (f & r & H1 & H2 & _). inversion H1; subst. rewrite Z in H2. discriminate.
+  - cbn [snd]. split; [discriminate | intros (f & r & H1 & _); discriminate].
+  - cbn [snd]. split; [discriminate | intros (f & r & H1 & _); discriminate].
+  - cbn [snd]. split; [discriminate | intros (f & r & H1 & _); discriminate].
+Qed.
+
+Lemma read_part_data_len mo file p d m : snd (read_part_data mo file p) = Ok (d, m) -> lenN d <= lenN file.
+Proof.
+  unfold read_part_data. destruct (p_size p =? 0).
+  { cbn [snd]. intro H. inversion H; subst. change (lenN (@nil N)) with 0. lia. }
+  destruct (file_seek_start mo (p_off p)) as [pos|]; [|cbn; discriminate].
+  destruct (read_varint (skipnS pos file)) as [[[meta k] c]| |] eqn:E; [|cbn; discriminate|cbn; discriminate].
+  cbn [snd]. cbv zeta. destruct (lenN (firstnS (p_size p) c) =? p_size p); [|discriminate].
+  intro H. inversion H; subst. apply read_varint_consumes in E.
+  rewrite firstnS_eq. rewrite skipnS_eq in E. unfold firstnN, skipnN, lenN in *.
+  rewrite firstn_length. rewrite skipn_length in E. lia.
+Qed.
+
+Lemma get_part_len mo rd sid d m : snd (snd (get_part mo rd sid)) = Ok (Some (d, m)) -> lenN d <= lenN (r_file rd).
+Proof.
+  unfold get_part. destruct (nthS (r_streams rd) sid) as [s|]; [|cbn; discriminate].
+  destruct (nthS (rs_parts s) (rs_cur s)) as [p|]; [|cbn; discriminate].
+  destruct (read_part_data mo (r_file rd) p) as [al res] eqn:E. cbn [snd].
+  destruct res as [[d' m']| |]; cbn [obnd]; try discriminate. intro H. inversion H; subst.
+  eapply read_part_data_len. rewrite E. reflexivity.
+Qed.
+
+(* the log of load_batch_sample_names up to the decoded stream *)
+Lemma load_samples_safe mo zd bs rd sid : rd_ok bs rd ->
+  snd (load_samples_stream mo zd rd sid) <> O2panic /\
+  (file_log bs (fst (load_samples_stream mo zd rd sid)) \/
+   exists l frame v, fst (load_samples_stream mo zd rd sid) = l ++ [AZstd (lenN v)] /\ file_log bs l /\
+                     zd frame = Some v /\ lenN frame <= lenN bs) /\
+  (forall rv, snd (load_samples_stream mo zd rd sid) = O2ok rv ->
+   exists l frame, fst (load_samples_stream mo zd rd sid) = l ++ [AZstd (lenN (snd rv))] /\ file_log bs l /\
+                   zd frame = Some (snd rv) /\ lenN frame <= lenN bs).
+Proof.
+  intro H. destruct (rstep_safe mo bs rd (RGet sid) H) as (_ & S2 & S3). cbn [rstep] in S2, S3.
+  pose proof (get_part_len mo rd sid) as GL. destruct H as [Hf _]. rewrite Hf in GL.
+  unfold load_samples_stream. cbv zeta.
+  destruct (snd (snd (get_part mo rd sid))) as [[[frame raw]|]| |] eqn:E; try contradiction.
+  - specialize (GL _ _ eq_refl). destruct (zd frame) as [v|] eqn:Z.
+    + cbn [fst snd]. split; [destruct (lenN v =? raw); discriminate|]. split.
+      * right. exists (map AFile (fst (snd (get_part mo rd sid)))), frame, v. repeat split; try assumption. apply file_log_map. exact S2.
+      * intros rv Hrv. destruct (lenN v =? raw); [|discriminate]. inversion Hrv; subst. cbn [snd].
+        exists (map AFile (fst (snd (get_part mo rd sid)))), frame. repeat split; try assumption. apply file_log_map. exact S2.
+    + cbn [fst snd]. split; [discriminate|]. split; [left; apply file_log_map; exact S2 | discriminate].
+  - cbn [fst snd]. split; [discriminate|]. split; [left; apply file_log_map; exact S2 | discriminate].
+  - cbn [fst snd]. split; [discriminate|]. split; [left; apply file_log_map; exact S2 | discriminate].
+Qed.
+
+(* ------------------------------------------------------------------ open_pre: structure *)
+Definition stage0 (mo : N) (file : list N) : lres reader :=
+  (map AFile (fst (deserialize mo file)),
+   match snd (deserialize mo file) with Ok rd => O2ok rd | Err => O2err e_archive | Panic => O2panic end).
+
+Lemma open_pre_unfold mo zd file :
+  open_pre mo zd file =
+  lbind (stage0 mo file) (fun rd =>
+  lbind (load_params mo rd) (fun prm =>
+  lbind (prepare rd) (fun sid =>
+  lbind (load_samples_stream mo zd rd sid) (fun rv =>
+  lret (mkPre (fst (fst prm)) (snd (fst prm)) (snd prm) (fst rv) (snd rv)))))).
+Proof.
+  unfold open_pre, stage0. cbv zeta. apply lbind_ext. intro rd. apply lbind_ext. intros [[ss k] mml]. reflexivity.
+Qed.
+
+Lemma stage0_props mo file :
+  file_log file (fst (stage0 mo file)) /\ snd (stage0 mo file) <> O2panic /\
+  (forall rd, snd (stage0 mo file) = O2ok rd -> rd_ok file rd /\ snd (deserialize mo file) = Ok rd).
+Proof.
+  destruct (deserialize_safe mo file) as [A S]. unfold stage0. cbn [fst snd].
+  split; [apply file_log_map; exact A|].
+  destruct (snd (deserialize mo file)) as [rd| |]; [ | split; [discriminate | intros ? H; discriminate] | contradiction].
+  split; [discriminate|]. intros rd' H. inversion H; subst. split; [exact S | reflexivity].
+Qed.
+
+Lemma stage0_ok_iff mo file rd : snd (stage0 mo file) = O2ok rd <-> snd (deserialize mo file) = Ok rd.
+Proof.
+  unfold stage0. cbn [snd]. destruct (snd (deserialize mo file)); split; intro H; try discriminate; inversion H; reflexivity.
+Qed.
+
+Lemma open_pre_ok_stages mo zd file st :
+  snd (open_pre mo zd file) = O2ok st <->
+  exists rd prm sid rv, snd (deserialize mo file) = Ok rd /\ snd (load_params mo rd) = O2ok prm /\
+    snd (prepare rd) = O2ok sid /\ snd (load_samples_stream mo zd rd sid) = O2ok rv /\
+    st = mkPre (fst (fst prm)) (snd (fst prm)) (snd prm) (fst rv) (snd rv).
+Proof.
+  rewrite open_pre_unfold. split.
+  - intro H. apply lbind_ok_inv in H. destruct H as (rd & H0 & H). apply lbind_ok_inv in H. destruct H as (prm & H1 & H).
+    apply lbind_ok_inv in H. destruct H as (sid & H2 & H). apply lbind_ok_inv in H. destruct H as (rv & H3 & H).
+    cbn [lret snd] in H. inversion H. exists rd, prm, sid, rv. apply stage0_ok_iff in H0. repeat split; assumption.
+  - intros (rd & prm & sid & rv & H0 & H1 & H2 & H3 & ->). apply stage0_ok_iff in H0.
+    rewrite (lbind_ok _ _ rd H0). cbn [snd]. rewrite (lbind_ok _ _ prm H1). cbn [snd].
+    rewrite (lbind_ok _ _ sid H2). cbn [snd]. rewrite (lbind_ok _ _ rv H3). reflexivity.
+Qed.
+
+Lemma open_pre_safe mo zd file : snd (open_pre mo zd file) <> O2panic.
+Proof.
+  rewrite open_pre_unfold. destruct (stage0_props mo file) as (_ & S0 & R0).
+  apply lbind_safe; [exact S0|]. intros rd Hrd. destruct (R0 rd Hrd) as [RD _].
+  apply lbind_safe; [apply (load_params_safe mo file rd RD)|]. intros prm _.
+  apply lbind_safe; [apply prepare_props|]. intros sid _.
+  apply lbind_safe; [apply (load_samples_safe mo zd file rd sid RD)|]. intros rv _. cbn. discriminate.
+Qed.
+
+(* the log of everything before the sample table: file-sized buffers, then possibly the decoded stream *)
+Definition pre_log (bs : list N) (zd : list N -> option (list N)) (l : list alloc) : Prop :=
+  file_log bs l \/
+  exists l0 frame v, l = l0 ++ [AZstd (lenN v)] /\ file_log bs l0 /\ zd frame = Some v /\ lenN frame <= lenN bs.
+
+Lemma pre_log_app bs zd a b : file_log bs a -> pre_log bs zd b -> pre_log bs zd (a ++ b).
+Proof.
+  intros Ha [Hb | (l0 & frame & v & E & F & Z & L)].
+  - left. apply file_log_app; assumption.
+  - right. exists (a ++ l0), frame, v. subst b. rewrite app_assoc. repeat split; try assumption. apply file_log_app; assumption.
+Qed.
+
+Lemma open_pre_log mo zd file :
+  pre_log file zd (fst (open_pre mo zd file)) /\
+  (forall st, snd (open_pre mo zd file) = O2ok st ->
+   exists l0 frame, fst (open_pre mo zd file) = l0 ++ [AZstd (lenN (ps_stream st))] /\ file_log file l0 /\
+                    zd frame = Some (ps_stream st) /\ lenN frame <= lenN file).
+Proof.
+  rewrite open_pre_unfold. destruct (stage0_props mo file) as (L0 & _ & R0).
+  destruct (snd (stage0 mo file)) as [rd|e|] eqn:E0.
+  2:{ rewrite (lbind_err _ _ e E0). cbn [fst snd]. split; [left; exact L0 | discriminate]. }
+  2:{ rewrite lbind_eq, E0. cbn [fst snd]. split; [left; exact L0 | discriminate]. }
+  rewrite (lbind_ok _ _ rd E0). cbn [fst snd]. destruct (R0 rd eq_refl) as [RD _].
+  destruct (load_params_safe mo file rd RD) as [L1 _].
+  destruct (snd (load_params mo rd)) as [prm|e|] eqn:E1.
+  2:{ rewrite (lbind_err _ _ e E1). cbn [fst snd]. split; [left; apply file_log_app; assumption | discriminate]. }
+  2:{ rewrite lbind_eq, E1. cbn [fst snd]. split; [left; apply file_log_app; assumption | discriminate]. }
+  rewrite (lbind_ok _ _ prm E1). cbn [fst snd]. destruct (prepare_props rd) as [L2 _].
+  destruct (snd (prepare rd)) as [sid|e|] eqn:E2.
+  2:{ rewrite (lbind_err _ _ e E2), L2. cbn [fst snd]. rewrite app_nil_r. split; [left; apply file_log_app; assumption | discriminate]. }
+  2:{ rewrite lbind_eq, E2, L2. cbn [fst snd]. rewrite app_nil_r. split; [left; apply file_log_app; assumption | discriminate]. }
+  rewrite (lbind_ok _ _ sid E2), L2. cbn [fst snd app].
+  destruct (load_samples_safe mo zd file rd sid RD) as (_ & L3 & R3).
+  destruct (snd (load_samples_stream mo zd rd sid)) as [rv|e|] eqn:E3.
+  2:{ rewrite (lbind_err _ _ e E3). cbn [fst snd]. split; [|discriminate].
+      apply pre_log_app; [assumption|]. apply pre_log_app; [assumption|]. exact L3. }
+  2:{ rewrite lbind_eq, E3. cbn [fst snd]. split; [|discriminate].
+      apply pre_log_app; [assumption|]. apply pre_log_app; [assumption|]. exact L3. }
+  rewrite (lbind_ok _ _ rv E3). cbn [lret fst snd]. rewrite app_nil_r.
+  destruct (R3 rv eq_refl) as (l & frame & EQ & FL & Z & LF). rewrite EQ. split.
+  - right. exists (fst (stage0 mo file) ++ fst (load_params mo rd) ++ l), frame, (snd rv).
+    rewrite <- !app_assoc. repeat split; try assumption. apply file_log_app; [assumption|]. apply file_log_app; assumption.
+  - intros st H. inversion H; subst. cbn [ps_stream].
+    exists (fst (stage0 mo file) ++ fst (load_params mo rd) ++ l), frame.
+    rewrite <- !app_assoc. repeat split; try assumption. apply file_log_app; [assumption|]. apply file_log_app; assumption.
+Qed.
+
+(* ------------------------------------------------------------------ open2: the theorems *)
+Lemma open2_unfold pf mo zd file :
+  open2 pf mo zd file =
+  lbind (open_pre mo zd file) (fun st =>
+  lbind (deser_sample_names_p pf (ps_stream st)) (fun ns =>
+  lret (mkHandle (ps_segment_size st) (ps_kmer_length st) (ps_min_match_len st)
+                 (coll_of_names (ps_segment_size st) (ps_kmer_length st) ns) (ps_reader st)))).
+Proof. reflexivity. Qed.
+
+Theorem open2_release_total_safe_proof : forall max_off zd file, snd (open2 Release max_off zd file) <> O2panic.
+Proof.
+  intros mo zd file. rewrite open2_unfold. apply lbind_safe; [apply open_pre_safe|]. intros st _.
+  apply lbind_safe; [apply deser_names_release_safe|]. intros ns _. cbn. discriminate.
+Qed.
+
+Theorem open2_dev_panic_iff_proof : forall max_off zd file,
+  snd (open2 Dev max_off zd file) = O2panic <->
+  exists st, snd (open_pre max_off zd file) = O2ok st /\ cv5_overflows (ps_stream st) = true.
+Proof.
+  intros mo zd file. rewrite open2_unfold. split.
+  - intro H. apply lbind_panic_inv in H. destruct H as [H | (st & Hst & H)]; [exfalso; exact (open_pre_safe _ _ _ H)|].
+    exists st. split; [assumption|]. apply lbind_panic_inv in H. destruct H as [H | (ns & _ & H)].
+    + apply deser_names_dev_panic_iff. exact H.
+    + cbn in H. discriminate.
+  - intros (st & Hst & Hov). rewrite (lbind_ok _ _ st Hst). cbn [snd].
+    apply deser_names_dev_panic_iff in Hov. rewrite lbind_eq, Hov. reflexivity.
+Qed.
+
+Theorem open2_total_safe_partial_proof : forall max_off zd file,
+  (forall st, snd (open_pre max_off zd file) = O2ok st -> cv5_overflows (ps_stream st) = false) ->
+  forall pf, snd (open2 pf max_off zd file) <> O2panic.
+Proof.
+  intros mo zd file H pf. destruct pf; [|apply open2_release_total_safe_proof].
+  intro P. apply open2_dev_panic_iff_proof in P. destruct P as (st & Hst & Hov). rewrite (H st Hst) in Hov. discriminate.
+Qed.
+
+Theorem open2_profiles_agree_proof : forall max_off zd file,
+  (forall st, snd (open_pre max_off zd file) = O2ok st -> cv5_overflows (ps_stream st) = false) ->
+  open2 Dev max_off zd file = open2 Release max_off zd file.
+Proof.
+  intros mo zd file H. rewrite !open2_unfold. destruct (snd (open_pre mo zd file)) as [st|e|] eqn:E.
+  - rewrite !(lbind_ok _ _ st E). rewrite (deser_names_same Release) by (apply H; reflexivity). reflexivity.
+  - rewrite !(lbind_err _ _ e E). reflexivity.
+  - rewrite !lbind_eq, E. reflexivity.
+Qed.
+
+Theorem open2_alloc_bounded_proof : forall pf max_off zd file,
+  exists fl zl, fst (open2 pf max_off zd file) = map AFile fl ++ zl /\
+    Forall (fun n => n <= lenN file) fl /\
+    (zl = [] \/
+     exists frame v nl, zl = AZstd (lenN v) :: nl /\ zd frame = Some v /\ lenN frame <= lenN file /\
+                        Forall (stream_alloc_ok (lenN v)) nl).
+Proof.
+  intros pf mo zd file. rewrite open2_unfold. destruct (open_pre_log mo zd file) as [PL RL].
+  destruct (snd (open_pre mo zd file)) as [st|e|] eqn:E.
+  - rewrite (lbind_ok _ _ st E). cbn [fst]. destruct (RL st eq_refl) as (l0 & frame & EQ & (fl & -> & FL) & Z & LF).
+    rewrite EQ. exists fl. eexists. rewrite <- app_assoc. split; [reflexivity|]. split; [exact FL|]. right.
+    exists frame, (ps_stream st). eexists. cbn [app]. split; [reflexivity|]. repeat split; try assumption.
+    apply lbind_log; [apply deser_names_alloc | intros; constructor].
+  - rewrite (lbind_err _ _ e E). cbn [fst].
+    destruct PL as [(fl & -> & FL) | (l0 & frame & v & -> & (fl & -> & FL) & Z & LF)].
+    + exists fl, []. rewrite app_nil_r. repeat split; try assumption. left. reflexivity.
+    + exists fl. eexists. split; [reflexivity|]. split; [exact FL|]. right. exists frame, v, []. repeat split; try assumption. constructor.
+  - exfalso. exact (open_pre_safe _ _ _ E).
+Qed.
+
+Lemma samples_of_names ss k ns : get_samples_list (coll_of_names ss k ns) = ns.
+Proof. unfold get_samples_list, coll_of_names. cbn [samples]. rewrite map_map. cbn [sname]. apply map_id. Qed.
+
+Theorem open2_ok_means_listable_proof : forall pf max_off zd file h,
+  snd (open2 pf max_off zd file) = O2ok h ->
+  exists st ns, snd (open_pre max_off zd file) = O2ok st /\
+    snd (deser_sample_names_p pf (ps_stream st)) = O2ok ns /\
+    h_samples h = ns /\
+    h_coll h = coll_of_names (ps_segment_size st) (ps_kmer_length st) ns /\
+    h_segment_size h = ps_segment_size st /\ h_kmer_length h = ps_kmer_length st /\
+    h_min_match_len h = ps_min_match_len st /\ h_reader h = ps_reader st.
+Proof.
+  intros pf mo zd file h H. rewrite open2_unfold in H. apply lbind_ok_inv in H. destruct H as (st & Hst & H).
+  apply lbind_ok_inv in H. destruct H as (ns & Hns & H). cbn [lret snd] in H. inversion H; subst.
+  exists st, ns. unfold h_samples. cbn [h_coll h_segment_size h_kmer_length h_min_match_len h_reader].
+  rewrite samples_of_names. repeat split; assumption.
+Qed.
+
+Lemma open2_ok_intro pf mo zd file st ns :
+  snd (open_pre mo zd file) = O2ok st -> snd (deser_sample_names_p pf (ps_stream st)) = O2ok ns ->
+  snd (open2 pf mo zd file) =
+  O2ok (mkHandle (ps_segment_size st) (ps_kmer_length st) (ps_min_match_len st)
+                 (coll_of_names (ps_segment_size st) (ps_kmer_length st) ns) (ps_reader st)).
+Proof. intros H1 H2. rewrite open2_unfold, (lbind_ok _ _ st H1). cbn [snd]. rewrite (lbind_ok _ _ ns H2). reflexivity. Qed.
+
+(* what "the decoded sample-name table" is in terms of the C03 model *)
+Theorem open2_names_are_c03_decoder_proof : forall pf v,
+  cv5_overflows v = false ->
+  o2_outcome (snd (deser_sample_names_p pf v)) = deser_sample_names v /\
+  forall ss k, obnd (deser_sample_names v) (fun ns => Ok (coll_of_names ss k ns)) =
+               deserialize_sample_names (coll_new ss k) v.
+Proof.
+  intros pf v H. split.
+  - rewrite (deser_names_same pf v H). apply deser_names_c03.
+  - intros ss k. unfold deserialize_sample_names. destruct (deser_sample_names v); reflexivity.
+Qed.
+
+(* the declarative reading of "open_pre returns st" *)
+Theorem open_pre_ok_iff_proof : forall max_off zd file st,
+  snd (open_pre max_off zd file) = O2ok st <->
+  exists rd sidp pdata pmeta sids frame raw,
+    snd (deserialize max_off file) = Ok rd /\
+    get_stream_id rd R_NAME_PARAMS = Some sidp /\ get_num_parts rd sidp = 1 /\
+    snd (get_part_by_id max_off rd sidp 0) = Ok (Some (pdata, pmeta)) /\ 12 <= lenN pdata /\
+    (ps_segment_size st, ps_kmer_length st, ps_min_match_len st) = params_fields pdata /\
+    get_stream_id rd R_NAME_COLL_0 = Some sids /\
+    get_stream_id rd R_NAME_COLL_1 <> None /\ get_stream_id rd R_NAME_COLL_2 <> None /\
+    snd (snd (get_part max_off rd sids)) = Ok (Some (frame, raw)) /\
+    ps_reader st = fst (get_part max_off rd sids) /\
+    zd frame = Some (ps_stream st) /\ lenN (ps_stream st) = raw.
+Proof.
+  intros mo zd file st. rewrite open_pre_ok_stages. split.
+  - intros (rd & prm & sid & rv & H0 & H1 & H2 & H3 & ->).
+    apply load_params_ok_iff in H1. destruct H1 as (sidp & pdata & pmeta & P1 & P2 & P3 & P4 & ->).
+    apply prepare_ok_iff in H2. destruct H2 as (Q1 & Q2 & Q3).
+    apply load_samples_ok_iff in H3. destruct H3 as (frame & raw & S1 & S2 & S3 & S4).
+    exists rd, sidp, pdata, pmeta, sid, frame, raw. cbn [ps_segment_size ps_kmer_length ps_min_match_len ps_reader ps_stream].
+    repeat split; try assumption.
+  - intros (rd & sidp & pdata & pmeta & sids & frame & raw & H0 & P1 & P2 & P3 & P4 & P5 & Q1 & Q2 & Q3 & S1 & S2 & S3 & S4).
+    exists rd, (params_fields pdata), sids, (ps_reader st, ps_stream st). split; [assumption|]. split.
+    { apply load_params_ok_iff. exists sidp, pdata, pmeta. repeat split; assumption. }
+    split. { apply prepare_ok_iff. repeat split; assumption. }
+    split. { apply load_samples_ok_iff. exists frame, raw. cbn [fst snd]. repeat split; assumption. }
+    rewrite <- P5. destruct st. reflexivity.
+Qed.
+
+(* an error before the sample table is the same error in both profiles *)
+Lemma open2_pre_err pf mo zd file e :
+  snd (open_pre mo zd file) = O2err e -> open2 pf mo zd file = (fst (open_pre mo zd file), O2err e).
+Proof. intro H. rewrite open2_unfold, (lbind_err _ _ e H). reflexivity. Qed.
+
+Lemma open2_archive_err pf mo zd file :
+  snd (deserialize mo file) = Err -> open2 pf mo zd file = (map AFile (fst (deserialize mo file)), O2err e_archive).
+Proof.
+  intro H. assert (E : snd (stage0 mo file) = O2err e_archive) by (unfold stage0; cbn [snd]; rewrite H; reflexivity).
+  rewrite (open2_pre_err pf mo zd file e_archive); rewrite open_pre_unfold, (lbind_err _ _ _ E); reflexivity.
 Qed.
